@@ -49,6 +49,7 @@ type vRelayScen struct {
 	WantNack bool `json:"wantNack"`
 	AckAt    int  `json:"ackAt"`
 	SeqOk    bool `json:"seqOk"`
+	SendErr  bool `json:"sendErr"` // the relay's own ping to the target cannot be sent (local failure)
 }
 
 // vRespScen: a ping arriving at the node under test
@@ -416,6 +417,9 @@ func vRunRelay(t *testing.T, s *vSink, id int, rs vRelayScen) (l vProbeLine) {
 	}()
 	nw.setFaults(vNetFaults{MinDelay: 100 * time.Microsecond})
 	R.broadcasts.Reset()
+	if rs.SendErr {
+		trR.failTo = trT.addr()
+	}
 	ind := indirectPingReq{SeqNo: reqSeq, Target: trT.ip, Port: 7946, Node: "T", Nack: rs.WantNack,
 		SourceAddr: trQ.ip, SourcePort: 7946, SourceNode: "Q"}
 	vSendRaw(trQ, trR, indirectPingMsg, &ind)
